@@ -4155,4 +4155,345 @@ theorem admin_token_issuer_strict (U : List Prov) (s : Auth) (o : CertOrigin) (r
       unfold Auth.requestFrom; unfold Auth.requestFromStrict at h; rw [← he]; exact h
     exact (admin_token_issuer_partial U s o r adm id hinv hrec (by rw [hg]; simp) h').1
 
+/-! ## first start: migration of the configuration's provisioners into the admin database -/
+
+theorem insDB_perm {α : Type} (key : α → Str) (x : α) (l : List α) : (insDB key x l).Perm (x :: l) :=
+  insertBy_perm key x l
+
+/-- the loop, whatever the faults: on success everything was stored; in any case the ids of what
+    is stored are among the ids recorded as created, and a failure is at a failing call -/
+theorem migrateProvs_spec (f : Faults) : ∀ (l : List Prov) (k : Nat) (acc : List Prov) (cr : List Str),
+    (∀ p ∈ acc, p.id ∈ cr) →
+    (∃ k' provs cr', migrateProvs f k acc cr l = (k', provs, cr', true) ∧ provs.Perm (l ++ acc) ∧ k' = k + l.length ∧
+        (∀ p ∈ provs, p.id ∈ cr')) ∨
+    (∃ k' provs cr', migrateProvs f k acc cr l = (k', provs, cr', false) ∧ k' ∈ f ∧ k < k' ∧ (∀ p ∈ provs, p.id ∈ cr'))
+  | [], k, acc, cr, h => .inl ⟨k, acc, cr, by simp [migrateProvs], List.Perm.refl _, by simp, h⟩
+  | p :: r, k, acc, cr, h => by
+    unfold migrateProvs
+    by_cases hb : k + 1 ∈ f
+    · simp only [List.contains_eq_mem, hb, decide_true, if_true]
+      exact .inr ⟨k + 1, acc, cr, rfl, hb, by omega, h⟩
+    · simp only [List.contains_eq_mem, hb, decide_false, Bool.false_eq_true, if_false]
+      have h' : ∀ q ∈ insDB (fun x : Prov => x.id) p acc, q.id ∈ p.id :: cr := by
+        intro q hq
+        rcases mem_insertBy.mp hq with e | hq
+        · subst e; exact List.mem_cons_self
+        · exact List.mem_cons_of_mem _ (h q hq)
+      rcases migrateProvs_spec f r (k + 1) _ _ h' with ⟨k', provs, cr', he, hp, hk, hc⟩ | ⟨k', provs, cr', he, hk, hlt, hc⟩
+      · refine .inl ⟨k', provs, cr', he, ?_, by simp only [List.length_cons]; omega, hc⟩
+        refine hp.trans ?_
+        exact (List.Perm.append_left r (insDB_perm (fun x : Prov => x.id) p acc)).trans List.perm_middle
+      · exact .inr ⟨k', provs, cr', he, hk, by omega, hc⟩
+
+/-- a rollback that meets no failing call deletes everything whose id it was given -/
+theorem rollback_clean (f : Faults) : ∀ (ids : List Str) (k : Nat) (provs : List Prov),
+    (∀ j, k < j → j ∉ f) → (∀ p ∈ provs, p.id ∈ ids) → (rollback f k provs ids).2 = []
+  | [], k, provs, _, h => by
+    unfold rollback
+    cases provs with
+    | nil => rfl
+    | cons p r => exact absurd (h p List.mem_cons_self) (by simp)
+  | id :: r, k, provs, hf, h => by
+    unfold rollback
+    have hb : k + 1 ∉ f := hf (k + 1) (by omega)
+    simp only [List.contains_eq_mem, hb, decide_false, Bool.false_eq_true, if_false]
+    refine rollback_clean f r (k + 1) _ (fun j hj => hf j (by omega)) ?_
+    intro p hp
+    obtain ⟨hp1, hp2⟩ := List.mem_filter.mp hp
+    have hne : p.id ≠ id := by simpa using hp2
+    rcases List.mem_cons.mp (h p hp1) with e | e
+    · exact absurd e hne
+    · exact e
+
+theorem single_fault_after {f : Faults} (h1 : f.length ≤ 1) {k : Nat} (hk : k ∈ f) : ∀ j, k < j → j ∉ f := by
+  intro j hj hjf
+  match f, h1 with
+  | [x], _ =>
+    simp only [List.mem_singleton] at hk hjf
+    omega
+
+/-- the provisioners a complete first start writes: the configuration's, plus the default one when
+    none of them is a JWK provisioner -/
+def FirstStart.written (m : FirstStart) : List Prov :=
+  match m.cfg.find? (fun p => p.kind == jwkKind) with
+  | some _ => m.cfg
+  | none => m.dflt :: m.cfg
+
+/-- the provisioner the first super administrator belongs to -/
+def FirstStart.adminProv (m : FirstStart) : Prov :=
+  (m.cfg.find? (fun p => p.kind == jwkKind)).getD m.dflt
+
+/-- the first super administrator -/
+def FirstStart.admin (m : FirstStart) : Adm :=
+  { id := m.admId, sub := stepSub, provId := m.adminProv.id, super := true }
+
+theorem migrateFail_shape (atomic : Bool) (f : Faults) (db : DB) (ha : db.adms = []) (k : Nat) (provs : List Prov) (cr : List Str)
+    (hk : k ∈ f) (hc : ∀ p ∈ provs, p.id ∈ cr) :
+    (migrateFail atomic f db k provs cr).2.2 ≠ none ∧ (migrateFail atomic f db k provs cr).1.adms = [] ∧
+    (atomic = true → f.length ≤ 1 → (migrateFail atomic f db k provs cr).1.provs = []) ∧ f ≠ [] := by
+  have hne : f ≠ [] := by intro e; rw [e] at hk; cases hk
+  unfold migrateFail
+  cases atomic with
+  | false => exact ⟨by simp, ha, by simp, hne⟩
+  | true =>
+    refine ⟨by simp, ha, fun _ h1 => ?_, hne⟩
+    simp only [if_true]
+    exact rollback_clean f _ k provs (single_fault_after h1 hk) (fun p hp => List.mem_reverse.mpr (hc p hp))
+
+/-- **what the migration block leaves on an empty database**, whatever the fault schedule: either
+    it completed — every provisioner it had to write is stored and the only administrator is the
+    super administrator `step` — or it failed without an administrator; the all-or-nothing block
+    then leaves no provisioner either when that was the only failure. -/
+theorem migrate_shape (atomic : Bool) (f : Faults) (db : DB) (hpe : db.provs = []) (ha : db.adms = []) (m : FirstStart) :
+    ((Auth.migrate atomic f db m).2.2 = none ∧ (Auth.migrate atomic f db m).1.adms = [m.admin] ∧
+      (Auth.migrate atomic f db m).1.provs.Perm m.written) ∨
+    ((Auth.migrate atomic f db m).2.2 ≠ none ∧ (Auth.migrate atomic f db m).1.adms = [] ∧
+      (atomic = true → f.length ≤ 1 → (Auth.migrate atomic f db m).1.provs = []) ∧ f ≠ []) := by
+  unfold Auth.migrate
+  simp only
+  by_cases h1 : 1 ∈ f
+  · simp only [List.contains_eq_mem, h1, decide_true, if_true]
+    exact .inr ⟨by simp, ha, fun _ _ => hpe, by intro e; rw [e] at h1; cases h1⟩
+  simp only [List.contains_eq_mem, h1, decide_false, Bool.false_eq_true, if_false]
+  have he0 : (db.provs.isEmpty) = true := by rw [hpe]; rfl
+  simp only [he0, Bool.not_true, Bool.false_eq_true, if_false]
+  rcases migrateProvs_spec f m.cfg 1 [] [] (by simp) with ⟨k', provs, cr', he, hp, _, hc⟩ | ⟨k', provs, cr', he, hk, _, hc⟩
+  · rw [he]
+    simp only
+    have hp' : provs.Perm m.cfg := by simpa using hp
+    cases hf : m.cfg.find? (fun p => p.kind == jwkKind) with
+    | some p =>
+      simp only
+      by_cases hb : k' + 1 ∈ f
+      · simp only [hb, decide_true, if_true]
+        exact .inr (migrateFail_shape atomic f db ha (k' + 1) provs cr' hb hc)
+      · simp only [hb, decide_false, Bool.false_eq_true, if_false]
+        refine .inl ⟨trivial, ?_, ?_⟩
+        · simp [ha, insDB, insertBy, FirstStart.admin, FirstStart.adminProv, hf]
+        · simpa [FirstStart.written, hf] using hp'
+    | none =>
+      simp only
+      by_cases hb : k' + 1 ∈ f
+      · simp only [hb, decide_true, if_true]
+        exact .inr (migrateFail_shape atomic f db ha (k' + 1) provs cr' hb hc)
+      simp only [hb, decide_false, Bool.false_eq_true, if_false]
+      have hc2 : ∀ q ∈ insDB (fun x : Prov => x.id) m.dflt provs, q.id ∈ m.dflt.id :: cr' := by
+        intro q hq
+        rcases mem_insertBy.mp hq with e | hq
+        · subst e; exact List.mem_cons_self
+        · exact List.mem_cons_of_mem _ (hc q hq)
+      by_cases hb2 : k' + 2 ∈ f
+      · simp only [hb2, decide_true, if_true]
+        exact .inr (migrateFail_shape atomic f db ha (k' + 2) _ _ hb2 hc2)
+      · simp only [hb2, decide_false, Bool.false_eq_true, if_false]
+        refine .inl ⟨trivial, ?_, ?_⟩
+        · simp [ha, insDB, insertBy, FirstStart.admin, FirstStart.adminProv, hf]
+        · simp only [FirstStart.written, hf]
+          exact (insDB_perm (fun x : Prov => x.id) m.dflt provs).trans (List.Perm.cons _ hp')
+  · rw [he]
+    simp only
+    exact .inr (migrateFail_shape atomic f db ha k' provs cr' hk hc)
+
+theorem restart_db (v : Variant) (f : Faults) (s : Auth) : (Auth.step v f s .restart).1.db = s.db := by
+  unfold Auth.step
+  simp only
+  have := reload_frame f { s with calls := 0 }
+  cases hb : reload f { s with calls := 0 } with
+  | mk s' b =>
+    rw [hb] at this
+    cases b <;> simp only <;> rw [this.1]
+
+theorem DBInvP.perm {U : List Prov} {l l' : List Prov} (h : DBInvP U l) (hp : l'.Perm l) : DBInvP U l' :=
+  ⟨(hp.map _).nodup_iff.mpr h.pid, (hp.map _).nodup_iff.mpr h.pname, (hp.map _).nodup_iff.mpr h.ptok,
+   fun p hpm => h.pU p (hp.mem_iff.mp hpm)⟩
+
+theorem FirstStart.adminProv_written (m : FirstStart) : m.adminProv ∈ m.written := by
+  unfold FirstStart.adminProv FirstStart.written
+  cases hf : m.cfg.find? (fun p => p.kind == jwkKind) with
+  | some p => simpa using List.mem_of_find?_eq_some hf
+  | none => simp
+
+/-- the database a start leaves: the one after the migration block (the reload only reads) -/
+theorem firstStart_db (v : Variant) (atomic : Bool) (f : Faults) (db : DB) (m : FirstStart) :
+    (Auth.firstStart v atomic f db m).1.db = (Auth.migrate atomic f db m).1 := by
+  unfold Auth.firstStart
+  cases hm : Auth.migrate atomic f db m with
+  | mk db' r =>
+    obtain ⟨k, o⟩ := r
+    cases o with
+    | some o => rfl
+    | none => simp only; rw [restart_db]
+
+/-- a start on a database that already holds provisioners does not migrate -/
+theorem migrate_skip (atomic : Bool) (db : DB) (m : FirstStart) (h : db.provs ≠ []) :
+    (Auth.migrate atomic [] db m).1 = db := by
+  unfold Auth.migrate
+  cases hp : db.provs with
+  | nil => exact absurd hp h
+  | cons p r => simp [hp]
+
+/-- **first start, no storage failure (full strength)** — for every configuration whose
+    provisioners (plus the default one when none is a JWK provisioner) have distinct ids, names
+    and token ids, a first start on an empty database that reports success leaves a CA that is
+    consistent with its database and has exactly one administrator: the super administrator
+    `step`, registered with a provisioner that was stored. Either form of the migration block. -/
+theorem first_start_complete (U : List Prov) (hU : SumsOK U) (atomic : Bool) (m : FirstStart) (hd : DBInvP U m.written)
+    (hok : (Auth.firstStart Variant.fixed atomic [] {} m).2 = .ok) :
+    FullInv U (Auth.firstStart Variant.fixed atomic [] {} m).1 ∧
+    (Auth.firstStart Variant.fixed atomic [] {} m).1.db.adms = [m.admin] ∧
+    m.adminProv ∈ (Auth.firstStart Variant.fixed atomic [] {} m).1.db.provs := by
+  have hdbeq := firstStart_db Variant.fixed atomic [] {} m
+  rcases migrate_shape atomic [] {} rfl rfl m with ⟨hn, hadm, hp⟩ | ⟨_, _, _, hne⟩
+  · refine ⟨?_, by rw [hdbeq]; exact hadm, by rw [hdbeq]; exact hp.mem_iff.mpr m.adminProv_written⟩
+    unfold Auth.firstStart at hok ⊢
+    cases hm : Auth.migrate atomic [] {} m with
+    | mk db' r =>
+      obtain ⟨k, o⟩ := r
+      rw [hm] at hn hadm hp hok
+      simp only at hn hadm hp
+      subst hn
+      simp only at hok ⊢
+      have hsh : shiftFaults k [] = [] := rfl
+      rw [hsh] at hok ⊢
+      have hdb : DBInv U db' := by
+        refine ⟨hd.perm hp, by rw [hadm]; simp, by rw [hadm]; simp, ?_⟩
+        intro a ha
+        rw [hadm] at ha
+        simp only [List.mem_singleton] at ha
+        subst ha
+        exact ⟨m.adminProv, hp.mem_iff.mpr m.adminProv_written, rfl⟩
+      exact boot_inv U hU db' hdb hok
+  · exact absurd rfl hne
+
+/-- **first start and one transient storage failure (full statement)** — whatever single admin
+    database call of a first start fails, the next start without failures comes up with a super
+    administrator. False for the migration block before the all-or-nothing repair
+    (`first_start_interrupted_refuted`), proved for the repaired block (`first_start_recovers`). -/
+def FirstStartRecovers (atomic : Bool) : Prop :=
+  ∀ (f : Faults) (m : FirstStart), f.length ≤ 1 →
+    let r1 := Auth.firstStart current atomic f {} m
+    let r2 := Auth.firstStart current atomic [] r1.1.db m
+    1 ≤ nsuper r2.1.db.adms
+
+theorem FirstStart.written_ne_nil (m : FirstStart) : m.written ≠ [] := by
+  intro h
+  have := m.adminProv_written
+  rw [h] at this; cases this
+
+/-- **first_start_recovers (full strength, the all-or-nothing migration)** — for every
+    configuration and every single failing database call of a first start, the next start comes
+    up with exactly one administrator, the super administrator `step` (no success hypothesis: the
+    statement is about the database the start leaves). -/
+theorem first_start_recovers : FirstStartRecovers true := by
+  intro f m h1
+  simp only
+  rw [firstStart_db, firstStart_db]
+  rcases migrate_shape true f {} rfl rfl m with ⟨_, hadm, hp⟩ | ⟨_, hadm, hprov, _⟩
+  · -- the migration completed (the failure, if any, hit the reload): the next start does not migrate
+    have hne : (Auth.migrate true f {} m).1.provs ≠ [] := by
+      intro e; rw [e] at hp; exact m.written_ne_nil (List.Perm.nil_eq hp).symm
+    rw [migrate_skip true _ m hne, hadm]
+    simp [nsuper, FirstStart.admin]
+  · -- the migration failed and took back what it had stored: the next start is a first start again
+    rcases migrate_shape true [] (Auth.migrate true f {} m).1 (hprov rfl h1) hadm m with ⟨_, hadm2, _⟩ | ⟨_, _, _, hne⟩
+    · rw [hadm2]; simp [nsuper, FirstStart.admin]
+    · exact absurd rfl hne
+
+namespace Witness
+def pAcme : Prov := { id := s "p1", name := s "n1", tok := s "acme/n1", kid := none, sum := s "11ec06f96af3ca654c22172a5d746c40", kind := 6, dkind := some 6 }
+def pJwk : Prov := { p0 with kind := 1, dkind := some 1 }
+def pDflt : Prov := { id := s "pd", name := s "Admin JWK", tok := s "Admin JWK:kd", kid := some (s "kd"), sum := s "ddccbbaa99887766554433221100ffee", kind := 1, dkind := some 1 }
+/-- ca.json with a JWK provisioner `n0` and an ACME provisioner `n1` -/
+def cfg2 : FirstStart := { cfg := [pJwk, pAcme], dflt := pDflt, admId := s "a0" }
+end Witness
+
+/-- **first_start_interrupted_refuted (finding C16-F7, the block before the repair)** — ca.json has
+    a JWK provisioner `n0` and an ACME provisioner `n1`. The fourth database call of the first
+    start (`CreateAdmin` of the super administrator `step`) fails: the start reports a storage
+    failure with both provisioners stored. The next start finds provisioners, does not run the
+    migration, and comes up — without any administrator, for good (no admin token can ever be
+    authorized). -/
+theorem first_start_interrupted_refuted : ¬ FirstStartRecovers false := by
+  intro h
+  have := h [4] Witness.cfg2 (by decide)
+  revert this; decide
+
+/-- the positions, block before the repair: before anything is written (1, 2) and after everything
+    is written (5, 6) the next start recovers; in between (3, 4) it comes up with no administrator
+    (and after 3 without `n1`, which is never migrated). With the all-or-nothing block 3 and 4
+    leave an empty database. -/
+example :
+    (∀ n ∈ [1, 2, 5, 6],
+       nsuper (Auth.firstStart current false [] (Auth.firstStart current false [n] {} Witness.cfg2).1.db Witness.cfg2).1.db.adms = 1) ∧
+    (∀ n ∈ [3, 4], (Auth.firstStart current false [n] {} Witness.cfg2).2 = .storeFailed ∧
+       (Auth.firstStart current false [] (Auth.firstStart current false [n] {} Witness.cfg2).1.db Witness.cfg2).2 = .ok ∧
+       (Auth.firstStart current false [] (Auth.firstStart current false [n] {} Witness.cfg2).1.db Witness.cfg2).1.db.adms = []) ∧
+    (∀ n ∈ [3, 4], (Auth.firstStart current true [n] {} Witness.cfg2).2 = .storeFailed ∧
+       (Auth.firstStart current true [n] {} Witness.cfg2).1.db.provs = []) := by
+  decide
+
+/-- hypotheses of `first_start_complete` met; without a JWK provisioner in ca.json the default one is created -/
+example : (Auth.firstStart Variant.fixed false [] {} Witness.cfg2).2 = .ok ∧
+    (Auth.firstStart Variant.fixed true [] {} { Witness.cfg2 with cfg := [Witness.pAcme] }).2 = .ok ∧
+    (Auth.firstStart Variant.fixed true [] {} { Witness.cfg2 with cfg := [Witness.pAcme] }).1.db.provs.map (·.name) = [s "n1", s "Admin JWK"] := by
+  decide
+
+/-! ## conversions ca.json ↔ admin database (table re-measured on every run) -/
+
+/-- **conv_loss_spares_identity** — for every provisioner type and both directions, nothing the
+    administrative state is made of is lost or changed by the conversions: id, name, type and
+    details, keys, roots, claims, template content, webhooks. (SSHPOP has no options in its
+    configuration format: in direction `lc` its record's templates and webhooks do not reach the
+    provisioner; it has no use for them.) -/
+theorem conv_loss_spares_identity :
+    ∀ r ∈ convLoss, r.typ ≠ "SSHPOP" → ∀ x ∈ r.loss, ∀ p ∈ convProtected, pathBelow p x = false := by decide
+
+theorem conv_loss_spares_identity_sshpop :
+    ∀ r ∈ convLoss, r.typ = "SSHPOP" → ∀ x ∈ r.loss,
+      ∀ p ∈ [["ID"], ["Name"], ["Claims"], ["id"], ["name"], ["type"], ["details"], ["claims"]], pathBelow p x = false := by decide
+
+/-- **conv_loss_classified** — everything that is lost is one of: the name policy, a template *file*
+    (its content is kept), ACME Wire options, AWS `IIDRoots` / `IMDSVersions` (no field in linkedca),
+    the spelling of the type string, database bookkeeping, SSHPOP's unused options. -/
+theorem conv_loss_classified :
+    ∀ r ∈ convLoss, ∀ x ∈ r.loss,
+      x ∈ goNamePolicyPaths ∨ x ∈ pbPolicyPaths ∨
+      x ∈ [["Options", "SSH", "TemplateFile"], ["Options", "X509", "TemplateFile"], ["Options", "Wire"], ["IIDRoots"], ["IMDSVersions"], ["Type"],
+           ["authority_id"], ["created_at", "nanos"], ["created_at", "seconds"], ["deleted_at", "nanos"], ["deleted_at", "seconds"]] ∨
+      (r.typ = "SSHPOP" ∧ (pathBelow ["webhooks"] x = true ∨ pathBelow ["ssh_template"] x = true ∨ pathBelow ["x509_template"] x = true)) := by
+  decide
+
+/-- one row per direction and type: 11 types, both ways -/
+theorem conv_rows_complete : (convLoss.map fun r => (r.dir, r.typ)).Nodup ∧ convLoss.length = 22 := by decide
+
+/-- **webhook update** — `UpdateProvisioner` is reached exactly when the body parses and validates
+    (as for create), the provisioner has a webhook of that name, and the body carries no other
+    secret and no other id than the stored ones; an unknown name is not-found, the rest a bad request -/
+theorem updateWebhook_proceed_iff (b : WebhookBody) (sd idd : Bool) :
+    updateWebhookCheck b sd idd = .proceed ↔
+      b.parses = true ∧ webhookValid b = true ∧ b.nameTaken = true ∧ sd = false ∧ idd = false := by
+  unfold updateWebhookCheck
+  cases b.parses <;> cases webhookValid b <;> cases b.nameTaken <;> cases sd <;> cases idd <;> simp
+
+theorem updateWebhook_notFound_iff (b : WebhookBody) (sd idd : Bool) :
+    updateWebhookCheck b sd idd = .notFound ↔ b.parses = true ∧ webhookValid b = true ∧ b.nameTaken = false := by
+  unfold updateWebhookCheck
+  cases b.parses <;> cases webhookValid b <;> cases b.nameTaken <;> cases sd <;> cases idd <;> simp
+
+/-- create and update validate the same way -/
+theorem createWebhook_validates (b : WebhookBody) (h : createWebhookCheck b = .proceed) : webhookValid b = true := by
+  have := (createWebhook_proceed_iff b).mp h
+  unfold webhookValid
+  simp [this.2.1, this.2.2.1, this.2.2.2.1, this.2.2.2.2.1, this.2.2.2.2.2.1, this.2.2.2.2.2.2.1]
+
+/-- **provisioner-policy handlers** — `UpdateProvisioner` (and with it the lock-out check of
+    `prov_policy_no_lockout`) is reached exactly when: create — no policy yet, body parses and
+    validates; update — a policy exists, body parses and validates; delete — a policy exists. -/
+theorem provPolicyHandler_proceed_iff (verb : PolicyVerb) (has p v : Bool) :
+    provPolicyHandlerCheck verb has p v = .proceed ↔
+      (verb = .create ∧ has = false ∧ p = true ∧ v = true) ∨
+      (verb = .update ∧ has = true ∧ p = true ∧ v = true) ∨
+      (verb = .delete ∧ has = true) := by
+  cases verb <;> cases has <;> cases p <;> cases v <;> decide
+
 end Verif.Admin
